@@ -25,6 +25,7 @@ func genCursorCase(t *rapid.T) CursorCase {
 		rapid.IntRange(0, 1000),
 	).Draw(t, "beta")
 	c.Tree.Mag = rapid.SampledFrom([]int{0, 0, 1, 2}).Draw(t, "mag")
+	genElem(t, &c.Tree)
 	c.Tree.Init = rapid.SliceOfN(rapid.IntRange(0, 47), 0, 40).Draw(t, "init")
 	c.Tree.Ops = rapid.SliceOfN(genOp(opKindsCursorTree), 0, 25).Draw(t, "ops")
 	if rapid.IntRange(0, 3).Draw(t, "skew") > 0 {
